@@ -4,6 +4,7 @@ from fractions import Fraction as F
 from harness import common
 from harness.props import c05
 from harness.props.c05 import fr, parse_trace, DELTAS, TEMPI
+from harness.impl.c05 import FORM_NAMES, RGEN_READS
 
 
 def norm_events(trace, start):
@@ -84,6 +85,40 @@ class Check(c05.Check):
                 'Non-trivial: >=2 routines and at least one of pause/resume/stop/wait/signal/tempo/draw executed in '
                 'a program with a positive delta; distinct by full case')
 
+    def regen(self):
+        """Translator-style tie: every function of builtins.py that reads the thread's random generator
+        (directly, or by calling one that does) must have a draw form, with as many generator reads as the
+        form table was written for."""
+        import ast
+        f = common.REPO / 'sc3' / 'base' / 'builtins.py'
+        try:
+            src = f.read_text()
+            tree = ast.parse(src)
+        except Exception as e:
+            return f'cannot parse {f}: {e}'
+        funcs = {n.name: n for n in tree.body if isinstance(n, ast.FunctionDef)}
+        reads = {name: sum(1 for x in ast.walk(n) if isinstance(x, ast.Attribute) and x.attr in ('_rgen', '_m_rgen'))
+                 for name, n in funcs.items()}
+        reads = {k: v for k, v in reads.items() if v}
+        calls = {name: {x.func.id for x in ast.walk(n) if isinstance(x, ast.Call) and isinstance(x.func, ast.Name)}
+                 for name, n in funcs.items()}
+        closure, grew = set(reads), True
+        while grew:
+            grew = False
+            for name, c in calls.items():
+                if name not in closure and c & closure:
+                    closure.add(name)
+                    grew = True
+        have = {n.split(':')[0] for n in FORM_NAMES}
+        missing = sorted(closure - have)
+        if missing:
+            return f'builtins.py random functions without a draw form in harness/impl/c05.py: {missing}'
+        if reads != RGEN_READS:
+            diff = {k: (reads.get(k), RGEN_READS.get(k)) for k in set(reads) | set(RGEN_READS)
+                    if reads.get(k) != RGEN_READS.get(k)}
+            return f'generator reads per function changed (source, form table): {diff}'
+        return None
+
     def gen_one(self, rng):
         single = rng.random() < 0.6
         nt = rng.choice([0, 1, 1, 2])
@@ -111,7 +146,7 @@ class Check(c05.Check):
                 if w < 0.35:
                     acts.append(['log'])
                 elif w < 0.5:
-                    acts.append(['draw'])
+                    acts.append(['draw', rng.randrange(len(FORM_NAMES))])
                 elif w < 0.6:
                     acts.append(['send', rng.randrange(100)])
                 elif interfere and w < 0.8:
@@ -121,8 +156,10 @@ class Check(c05.Check):
                     acts.append([rng.choice(['wait', 'sig', 'sig']), rng.randrange(nconds)])
             if rng.random() < 0.35:
                 acts.insert(rng.randrange(len(acts) + 1), ['seed', next(seeds)])
-            if rng.random() < 0.05:
-                acts.insert(rng.randrange(len(acts) + 1), [rng.choice(['hang', 'yinf'])])
+            if rng.random() < 0.12:
+                acts.insert(rng.randrange(len(acts) + 1),
+                            rng.choice([['hang'], ['yinf'], ['yv', 'T'], ['yv', 'T'], ['yv', 'F'], ['yv', 'N'],
+                                        ['yv', 'S'], ['yv', 'O']]))
             if i > 0 and rng.random() < 0.08:
                 acts.insert(rng.randrange(len(acts) + 1), ['raise'])
             rts.append(acts)
@@ -158,13 +195,14 @@ class Check(c05.Check):
                 sub = len(rts)
                 body = ([['seed', next(seeds)]] if rng.random() < 0.7 else [])
                 for _ in range(rng.randint(1, 4)):
-                    body += [['draw']] * rng.randint(1, 2) + [['y', '0']]
+                    body += [['draw', rng.randrange(len(FORM_NAMES))] for _ in range(rng.randint(1, 2))] + [['y', '0']]
                 if rng.random() < 0.3:
                     body.insert(rng.randrange(1, len(body) + 1), ['seed', next(seeds)])
                 rts.append(body)
                 for _ in range(rng.randint(1, 4)):
                     k = rng.randrange(len(rts[puller]) + 1)
-                    rts[puller][k:k] = [['draw']] * rng.randint(0, 2) + [['pull', sub]]
+                    rts[puller][k:k] = ([['draw', rng.randrange(len(FORM_NAMES))] for _ in range(rng.randint(0, 2))]
+                                        + [['pull', sub]])
         tclk = [int(c[1:]) for c in clocks if c[0] == 't']
         if tclk and (single or rng.random() < 0.3):
             who = 0 if not single else rng.randrange(n)
@@ -191,7 +229,7 @@ class Check(c05.Check):
             self.notes.append('nrt2: ' + err)
             return None
         for o, o2 in zip(outs, nrt2):
-            o['nrt2'] = {'raw_sha1': o2['raw_sha1'], 'trace': o2['trace']}
+            o['nrt2'] = {'raw_sha1': o2['raw_sha1'], 'trace': o2['trace'], 'draw_values': o2['draw_values']}
         return outs
 
     # ---- oracle -----------------------------------------------------------------------------------
@@ -210,8 +248,14 @@ class Check(c05.Check):
         if 'inf' in nrt['trace']:
             return {'what': 'NRT: a routine that yielded inf was woken again at logical time inf (real time never '
                             'wakes it)', 'signature': 'c10:inf'}
+        for mode, o in (('nrt', nrt), ('rt', rt)):
+            if o is not None and o.get('draw_diag'):
+                return {'what': f'{mode}: a builtin random function did not read exactly the one generator of the '
+                                f'calling routine: {o["draw_diag"][0]} (M = the main thread\'s generator)',
+                        'signature': 'c10:rgen:wrong-generator'}
         # determinism: two fresh NRT processes
-        if out['nrt2']['raw_sha1'] != nrt['raw_sha1'] or out['nrt2']['trace'] != nrt['trace']:
+        if (out['nrt2']['raw_sha1'] != nrt['raw_sha1'] or out['nrt2']['trace'] != nrt['trace']
+                or out['nrt2']['draw_values'] != nrt['draw_values']):
             return {'what': 'two fresh NRT runs of the same seeded program differ (score bytes or logged values)',
                     'signature': 'c10:nondeterministic'}
         single = len(clocks_used(case)) == 1
@@ -258,6 +302,9 @@ class Check(c05.Check):
             def stamp(b):
                 return F(b[0]) + (F(1, 4) if b[1] % 2 == 0 else F(5, 4))
             rt_sorted = sorted(rt['bundles'], key=stamp)        # stable: ties keep the send order
+            if nrt['draw_values'] != rt['draw_values']:
+                return {'what': f'single-clock program: drawn values differ between NRT {nrt["draw_values"][:6]} and '
+                                f'RT {rt["draw_values"][:6]}', 'signature': 'c10:rt-nrt:values'}
             if nrt['bundles'] != rt_sorted:
                 return {'what': f'single-clock program: (time, bundle) sequences differ: NRT score '
                                 f'{nrt["bundles"][:8]} vs RT datagrams ordered by timetag then send order '
